@@ -1,5 +1,6 @@
 import GrinVerif.Drv.Common
 import GrinVerif.Model.Pmmr
+import GrinVerif.Model.PmmrHandle
 namespace GV.Drv.PmmrD
 open GV GV.Pmmr GV.Drv
 
@@ -12,6 +13,14 @@ structure St where
   hashes : List Bytes := []
   /-- remove log of the Vec backend -/
   removed : List Nat := []
+  /-- the live handle of the `handle` / `atsize` runs (`Model/PmmrHandle.lean`): backend + size -/
+  h : Handle Bytes Bytes := {}
+  /-- backend saved by `hsave`, brought back by `hrestore` -/
+  saved : VecBackend Bytes Bytes := {}
+  /-- the backend of `h` was built by pushes at its end and rewinds only, nothing pruned: it is the
+  MMR of its own element list (`Rep` of the theorems `handle_*` in Props/C07.lean) -/
+  rep : Bool := true
+  savedRep : Bool := true
 
 def showPairs (l : List (Nat × Nat)) : String :=
   "[" ++ ",".intercalate (l.map fun p => s!"{p.1}:{p.2}") ++ "]"
@@ -21,7 +30,85 @@ def showRoot : RootRes Bytes → String
   | .ok h => toHex h
   | .err => "err"
 
+def showOptHex : Option Bytes → String
+  | some b => toHex b
+  | none => "none"
+
+def showProof : Option (Nat × List Bytes) → String
+  | some (sz, path) => s!"{sz} {showHexList path}"
+  | none => "err"
+
+/-- is `s` the size of an MMR (`peak_map_height(s).1 == 0`; `validSize_iff` in Props/C07.lean) -/
+def validSize (s : Nat) : Bool := (peakMapHeight s).2 == 0
+
+/-- the handle is a view at a valid size inside a backend that is the MMR of its element list: all
+its observations are fixed by the property (`handle_observations`, `handle_at_valid_size`) -/
+def specFixed (st : St) : Bool :=
+  st.rep && validSize st.h.size && st.h.size ≤ st.h.be.hashes.length
+
+/-- compare as a property-fixed value or as an internal observable -/
+def cmpBy (spec : Bool) (model impl : String) : Verdict :=
+  if spec then cmpSpec model impl else cmpModel model impl
+
+/-- the ops of the `handle` / `atsize` runs; a trailing tag (which kind of view was asked: `pmmr`,
+`ro`, `rw` - they share one body in the code and one function here) is ignored -/
+def handleH (st : St) (args : List String) (impl : String) : Option (St × Verdict) :=
+  match args with
+  | ["hnew"] => some ({ st with h := {}, rep := true }, .ok)
+  | ["hnewho"] => some ({ st with h := { be := { data := none } }, rep := true }, .ok)
+  | ["hsave"] => some ({ st with saved := st.h.be, savedRep := st.rep }, .ok)
+  | ["hrestore"] => some ({ st with h := { st.h with be := st.saved }, rep := st.savedRep }, .ok)
+  | ["hat", s] => match nat? s with
+    | some s => some ({ st with h := Handle.openAt st.h.be s }, .ok)
+    | none => some (st, .unknown)
+  | ["hpush", e] => match parseHex e with
+    | some e => match st.h.push realHF e with
+      | .ok h' =>
+        let atEnd := st.h.size == st.h.be.hashes.length
+        some ({ st with h := h', rep := st.rep && atEnd }, cmpBy (st.rep && atEnd) (toString h'.size) impl)
+      -- refused for a size that is not an MMR size: fixed by the property, whatever the backend
+      | .badSize => some (st, cmpSpec "err" impl)
+      | .missingSibling => some (st, cmpModel "err" impl)
+    | none => some (st, .unknown)
+  | ["hrewind", p] => match nat? p with
+    | some p => let h' := st.h.rewind p; some ({ st with h := h' }, cmpSpec (toString h'.size) impl)
+    | none => some (st, .unknown)
+  | ["hprune", p] => match nat? p with
+    | some p => match st.h.prune p with
+      | some (r, h') => some ({ st with h := h', rep := st.rep && !r }, cmpModel (showBool r) impl)
+      | none => some (st, cmpModel "err" impl)
+    | none => some (st, .unknown)
+  | "hsize" :: _ => some (st, cmpSpec (toString st.h.size) impl)
+  | "hroot" :: _ =>
+    some (st, cmpBy (specFixed st || !validSize st.h.size) (showRoot (st.h.root realHF)) impl)
+  | "hpeaks" :: _ =>
+    some (st, cmpBy (specFixed st || !validSize st.h.size) (showHexList st.h.peaks) impl)
+  | "hvalidate" :: _ => some (st, cmpBy (specFixed st) (showBool (st.h.validate realHF)) impl)
+  | "hproof" :: p :: _ => match nat? p with
+    | some p => some (st, cmpBy (specFixed st) (showProof (st.h.merkleProof realHF p)) impl)
+    | none => some (st, .unknown)
+  | "hhash" :: p :: _ => match nat? p with
+    | some p => some (st, cmpBy (specFixed st) (showOptHex (st.h.getHash p)) impl)
+    | none => some (st, .unknown)
+  | "hdata" :: p :: _ => match nat? p with
+    | some p => some (st, cmpBy (specFixed st) (showOptHex (st.h.getData p)) impl)
+    | none => some (st, .unknown)
+  | ["hleafpos"] => some (st, cmpModel (showNatList st.h.leafPosIter) impl)
+  -- `VecBackend::n_unpruned_leaves` is `unimplemented!()`
+  | ["hnunpruned"] => some (st, cmpModel "panic" impl)
+  | ["hbackend"] =>
+    let d := match st.h.be.data with
+      | some d => toString d.length
+      | none => "none"
+    some (st, cmpBy st.rep s!"{st.h.be.hashes.length} {d} {st.h.be.removed.length}" impl)
+  | ["hfile"] => some (st, cmpBy st.rep (showHexList st.h.be.hashes) impl)
+  | ["hdatafile"] => some (st, cmpBy st.rep (showHexList (st.h.be.data.getD [])) impl)
+  | _ => none
+
 def handle (st : St) (args : List String) (impl : String) : St × Verdict :=
+  match handleH st args impl with
+  | some r => r
+  | none =>
   match args with
   | ["pmh", p] => match nat? p with
     | some p => let r := peakMapHeight p; (st, cmpSpec s!"{r.1} {r.2}" impl)
